@@ -92,3 +92,64 @@ func VerifC17WF() {
 	rows2 := append([]string{}, rows1...)
 	c17Compare(rows1, rows2, "wf")
 }
+
+func init() {
+	verifRegister("VerifC17Names", VerifC17Names)
+}
+
+// VerifC17Names: byte level. Forests of 2..3 rows whose names are 1..L arbitrary ASCII bytes (so "." / ".." /
+// names with '/' occur, as root and as child): text, JSON and dry-run (with and without an extension) through the
+// real path code of both variants: same accept/reject decision, identical bytes. verifN() = 10*rows + L.
+func VerifC17Names() {
+	nn := verifN() / 10
+	maxlen := verifN() % 10
+	var shapes [][]uint
+	if nn == 2 {
+		shapes = [][]uint{{0, 1}, {0, 0}}
+	} else {
+		shapes = [][]uint{{0, 1, 2}, {0, 1, 1}, {0, 1, 0}, {0, 0, 1}}
+	}
+	depths := shapes[verifChoose("shape", 0, uint(len(shapes)-1))]
+	var rows1, rows2 []string
+	for i := 0; i < nn; i++ {
+		l := int(verifChoose("len", 1, uint(maxlen)))
+		name := verifBytes("name", l)
+		for j := 0; j < len(name); j++ {
+			verifAssume(name[j] != '\n' && name[j] < 0x80 && name[j] != 0)
+		}
+		verifAssume(name[len(name)-1] != '\r')
+		pre := "- "
+		for k := uint(0); k < depths[i]; k++ {
+			pre = "  " + pre
+		}
+		r := verifRow(pre, 0, depths[i], name)
+		rows1 = append(rows1, r)
+		rows2 = append(rows2, r)
+	}
+	mode := verifChoose("mode", 0, 2)
+	w1, w2 := newVerifWriter(), newVerifWriter()
+	var err1, err2 error
+	verifContext("C17.names")
+	switch mode {
+	case 0:
+		err1 = Output(w1, &verifReader{lines: rows1})
+		err2 = wasm.Output(w2, &verifReader{lines: rows2})
+	case 1:
+		err1 = Output(w1, &verifReader{lines: rows1}, WithEncodeJSON())
+		err2 = wasm.Output(w2, &verifReader{lines: rows2}, wasm.WithEncodeJSON())
+	case 2:
+		var exts []string
+		if verifFlag("ext") {
+			exts = []string{".x"}
+		}
+		color.Output = w1
+		err1 = Output(w1, &verifReader{lines: rows1}, WithDryRun(), WithFileExtensions(exts))
+		err2 = wasm.Output(w2, &verifReader{lines: rows2}, wasm.WithDryRun(), wasm.WithFileExtensions(exts))
+	}
+	cls := []string{"/text", "/json", "/dryrun"}[mode]
+	verifAssert((err1 == nil) == (err2 == nil), "C17.acc.names"+cls)
+	if err1 == nil && err2 == nil {
+		verifAssert(w1.out == w2.out, "C17.out.names"+cls)
+	}
+	verifReach("C17.names.end")
+}
